@@ -741,6 +741,11 @@ impl Module for StakeKeeper {
                 dst_validator,
                 amount,
             } => {
+                // see https://github.com/cosmos/cosmos-sdk/blob/v0.46.1/x/staking/keeper/delegation.go#L923-L925
+                if src_validator == dst_validator {
+                    bail!("cannot redelegate to the same validator");
+                }
+
                 // see https://github.com/cosmos/cosmos-sdk/blob/v0.46.1/x/staking/keeper/msg_server.go#L316-L322
                 let events = vec![Event::new("redelegate")
                     .add_attribute("source_validator", &src_validator)
